@@ -11,12 +11,12 @@ THOROUGH = dict(caps=[3], sym=False)
 LOCK_PROPS = ('C06', 'C07')
 
 
-def case_list(fs):
+def case_list(fs, tier='thorough'):
     """case splits of the precondition: 'split = E' (E / !E) and 'cases = A ;; B ;; ...' (the disjuncts of a
     requires clause of the same function); the product of both.  Every case is its own proof unit."""
     split = fs.opts.get('split')
     a = [None] if not split else [split, '!(%s)' % split]
-    cs = fs.opts.get('cases')
+    cs = fs.opts.get('quickcases') if tier == 'quick' and fs.opts.get('quickcases') else fs.opts.get('cases')
     b = [None] if not cs else [x.strip() for x in cs.split(';;')]
     out = []
     for x in a:
@@ -57,7 +57,7 @@ def units_for(prop, tier, gdir):
                 if fn.endswith('__ctor'):
                     continue
                 notes['functions'].append(fn)
-                for case in case_list(sp.funcs[fn]):
+                for case in case_list(sp.funcs[fn], tier):
                     units.append(engine.Unit(cn, fn, 2 if tier == 'quick' else 3, sp, infos[cn], gen, timeout=3600, sym=True, case=case, lockcov=True))
         return units, notes
     if prop == 'C18':
@@ -91,7 +91,7 @@ def units_for(prop, tier, gdir):
             notes['functions'].append(fn)
             for mc in ([int(sp.funcs[fn].opts['quickcap'])] if tier == 'quick' and 'quickcap' in sp.funcs[fn].opts else caps):
                 to = int(sp.funcs[fn].opts.get('timeout', '1500' if tier == 'quick' else '7200'))
-                for case in case_list(sp.funcs[fn]):
+                for case in case_list(sp.funcs[fn], tier):
                     units.append(engine.Unit(cn, fn, mc, sp, infos[cn], gen, timeout=to, sym=cfg['sym'], case=case))
             if tier == 'thorough' and sp.funcs[fn].opts.get('modular') == 'yes':
                 units.append(engine.Unit(cn, fn, 2, sp, infos[cn], gen, timeout=3600, modular=True))
